@@ -29,7 +29,13 @@ Monitors
                   (LockGate, delegates to the real lock) brings all members to the controller's lock before the first
                   one enters (the situation whenever the run loop holds the lock while applications call in) and then
                   admits them in a drawn order; other schedules: lock held by the harness while the members arrive and
-                  released to whoever wins, or no forcing at all with random yields at lock acquisitions.  At
+                  released to whoever wins, or no forcing at all with random yields at lock acquisitions; directed
+                  holds ("after"): one member runs alone until it has released the controller's lock for the k-th time
+                  (k = 1..3, outermost level) and is parked right there, before its next statement, while the other
+                  members run their whole calls - the window between a locked search and anything the caller still
+                  does after leaving the lock - or it is parked inside its k-th critical section until all others wait
+                  at the lock; "lines": yields at statement starts of the bind / close functions of llc.py
+                  (vf.core.watch.LineMonitor, member threads only) as a statistical complement.  At
                   quiescence (all members returned) the outcomes must be explained by SOME sequential order of the
                   operations on the address model, open sockets report pairwise distinct addresses, and a datagram the
                   peer sends to each newly bound address is received by exactly that socket
@@ -54,7 +60,7 @@ RULE = ("cases = operation histories on two link controllers: (a) all sequences 
         "operations on 6 socket slots, in the quick tier also all 4-symbol sequences that end in close-again, "
         "(c) random histories of profile 'threads' in which groups of 2-6 application threads operate on their own "
         "sockets of one controller at the same time (member operations, shared / contested addresses and names, "
-        "schedule mode, admission order and yield seed are part of the case) and batches of resolve() calls for long "
+        "schedule mode, admission order, parked member + hold point (after the k-th release / k-th acquisition of the controller's lock, k = 1..3) and yield seed are part of the case) and batches of resolve() calls for long "
         "names are spread over several SNL PDUs, "
         "(b) random "
         "histories of ~60-110 operations drawn from 7 profiles (mixed, names life cycle, named-address exhaustion, "
@@ -75,7 +81,9 @@ ASSUMPTIONS = ["vf.ref.addr_model is a faithful reading of the LLCP address plan
                "concurrent groups: every member thread works on its own socket (no two threads on one socket); the "
                "harness replaces the attribute llc.lock by a delegating wrapper while a group runs (adapter: if nfcpy "
                "stops taking llc.lock in a bind path the window counters stay 0 and the run is inconclusive); thread "
-               "schedules other than the forced ones are whatever the interpreter does (counted, not enumerated)"]
+               "schedules other than the forced ones are whatever the interpreter does (counted, not enumerated); a member "
+               "is parked only at a release after which its thread does not own the real lock (the other members can "
+               "always finish), hold points a call never reaches are counted (cgroup_hold_point_not_reached)"]
 REQUIRED = ["op_bind", "op_resolve", "op_connect", "op_sendto", "op_close", "datagrams_delivered", "resolves_answered",
             "connect_by_name_success", "connect_by_name_refused", "invariant_evaluations", "exhaustion_episodes",
             "reuse_episodes", "judged_bind", "op_reclose", "reclose_address_reused", "reclose_beside_listener",
@@ -87,6 +95,10 @@ REQUIRED = ["op_bind", "op_resolve", "op_connect", "op_sendto", "op_close", "dat
             "cgroup_overlapping_pairs", "cgroup_implicit_binds", "cgroup_one_winner_same_address",
             "cgroup_one_winner_same_name", "cgroup_close_beside_bind", "cgroup_mode_chain", "cgroup_mode_held",
             "cgroup_mode_free", "cgroup_probe_delivered", "cgroup_last_addresses_contested",
+            # directed holds: a member parked after it left llc.lock / inside its critical section
+            "cgroup_mode_after", "cgroup_held_after_release", "cgroup_held_after_release_k1",
+            "cgroup_release_window_bind_completed", "cgroup_release_window_anonymous_pair", "cgroup_held_after_acquire",
+            "cgroup_acquire_window_others_at_lock", "cgroup_mode_lines", "cgroup_line_yields_injected",
             "resolve_batches_split_over_several_snl", "resolve_batch_answers_in_several_snl", "resolve_foreign_wakeups",
             "resolve_batches_staggered"]
 
@@ -94,6 +106,7 @@ TURN_LIMIT = 4000
 IDLE_LIMIT = 12
 WALL_GUARD = 8.0     # seconds of real time a helper thread may need to be scheduled (never a verdict)
 GROUP_GUARD = 30.0   # the same for the members of a concurrent group (nothing they call can block on the peer)
+HOLD_GUARD = 10.0    # the same for a member parked at a hold point / the others waiting for it (never a verdict)
 
 KIND = {"ldl": None, "dlc": None, "raw": None}   # filled lazily (needs nfc on sys.path)
 
@@ -149,9 +162,24 @@ class LockGate(object):
     that arises whenever the run loop holds the lock (collect / dispatch) while application threads call in.
     Nothing here decides a verdict; a guard time-out only means that the forced window was not reached (counted)."""
 
-    def __init__(self, real, n, order=None, yield_p=0.0, yseed=0):
+    def __init__(self, real, n, order=None, yield_p=0.0, yseed=0, hold=None):
         self.real = real
         self.n = n
+        # directed hold (schedule mode "after"): {"i": member, "at": "release" | "acquire", "k": 1.., "until": "all" |
+        # "one"}.  Member i runs alone (the others wait at their first acquisition) until it has released the lock
+        # for the k-th time (outermost level of the re-entrant lock) and is parked right there, before its next
+        # statement, while the other members run their whole calls ("one": until the first of them has returned);
+        # "acquire": it is parked INSIDE its k-th critical section until every other member waits at the lock.
+        self.hold = dict(hold) if hold else None
+        self.depth = {}          # member index -> nesting depth of its acquisitions through the gate
+        self.nacq = {}           # member index -> outermost acquisitions so far
+        self.nrel = {}           # member index -> outermost releases so far
+        self.hold_reached = False    # the held member is (was) parked at its hold point
+        self.hold_over = False
+        self.hold_depth0 = None      # "release" holds: the real lock was not owned by the parked thread
+        self.done_at_hold = None     # members that had returned when the hold began
+        self.done_in_hold = ()       # members that returned while the member was parked
+        self.waiting_in_hold = ()    # "acquire" holds: members that waited at the lock while the member was parked
         self.order = list(order) if order is not None else None
         self.mu = threading.Condition(threading.Lock())
         self.idx = {}            # thread ident -> member index
@@ -204,7 +232,10 @@ class LockGate(object):
             if self.yield_p and self.yrng.random() < self.yield_p:
                 self.yields += 1
                 time.sleep(0 if self.yrng.random() < 0.7 else 0.0002)
-            return self.real.acquire(blocking, timeout)
+            r = self.real.acquire(blocking, timeout)
+            if r:
+                self._acquired(i)
+            return r
         self.first.add(i)
         with self.mu:
             self.arrived.append(i)
@@ -219,6 +250,11 @@ class LockGate(object):
                 if not self.mu.wait_for(lambda: all(j in self.entered or j in self.finished for j in before),
                                         GROUP_GUARD):
                     self.guard_hit += 1
+            elif self.hold is not None and i != self.hold["i"]:
+                # the held member goes first: the others stay here until it is parked at its hold point (or has
+                # returned without ever reaching it)
+                if not self.mu.wait_for(lambda: self.hold_reached or self.hold["i"] in self.finished, HOLD_GUARD):
+                    self.guard_hit += 1
         if self.order is None and self.yield_p and self.yrng.random() < self.yield_p:
             self.yields += 1
             time.sleep(0 if self.yrng.random() < 0.7 else 0.0002)
@@ -226,16 +262,79 @@ class LockGate(object):
         with self.mu:
             self.entered.append(i)
             self.mu.notify_all()
+        if r:
+            self._acquired(i)
         return r
+
+    def _acquired(self, i):
+        d = self.depth[i] = self.depth.get(i, 0) + 1
+        if d != 1:
+            return
+        k = self.nacq[i] = self.nacq.get(i, 0) + 1
+        h = self.hold
+        if h is None or h["i"] != i or h.get("at") != "acquire" or h.get("k") != k or self.hold_reached:
+            return
+        # parked inside the critical section: everybody else has to come to the lock and wait there
+        with self.mu:
+            self.hold_reached = True
+            self.done_at_hold = set(self.finished)
+            self.mu.notify_all()
+            others = [j for j in range(self.n) if j != i]
+            if not self.mu.wait_for(lambda: all(j in self.finished or j in self.arrived for j in others), HOLD_GUARD):
+                self.guard_hit += 1
+            self.waiting_in_hold = tuple(j for j in others if j in self.arrived and j not in self.finished)
+            self.hold_over = True
+            self.mu.notify_all()
+
+    def _released(self, i):
+        d = self.depth[i] = self.depth.get(i, 1) - 1
+        if d != 0:
+            return
+        k = self.nrel[i] = self.nrel.get(i, 0) + 1
+        h = self.hold
+        if h is None or h["i"] != i or h.get("at") != "release" or h.get("k") != k or self.hold_reached:
+            return
+        # parked between the release and the next statement of the caller: the others run their calls meanwhile
+        try:
+            owned = self.real._is_owned()
+        except Exception:      # noqa
+            owned = None
+        if owned:
+            # the thread still owns the real lock (taken on a way around the attribute llc.lock): parking it here
+            # would only stall the others until the guard expires - no hold, the others go on
+            with self.mu:
+                self.hold_depth0 = False
+                self.hold_reached = self.hold_over = True
+                self.done_at_hold = set(self.finished)
+                self.mu.notify_all()
+            return
+        with self.mu:
+            self.hold_depth0 = True
+            self.hold_reached = True
+            start = self.done_at_hold = set(self.finished)
+            self.mu.notify_all()
+            others = set(j for j in range(self.n) if j != i)
+            if h.get("until") == "one":
+                cond = lambda: others <= self.finished or bool((self.finished - start) & others)   # noqa
+            else:
+                cond = lambda: others <= self.finished                                               # noqa
+            if not self.mu.wait_for(cond, HOLD_GUARD):
+                self.guard_hit += 1
+            self.done_in_hold = tuple(sorted((self.finished - start) & others))
+            self.hold_over = True
+            self.mu.notify_all()
 
     def release(self):
         self.real.release()
+        i = self.idx.get(threading.get_ident())
+        if i is not None:
+            self._released(i)
 
     def __enter__(self):
         return self.acquire()
 
     def __exit__(self, *exc):
-        self.real.release()
+        self.release()
 
     def _is_owned(self):
         return self.real._is_owned()
@@ -260,6 +359,9 @@ class LockGate(object):
 
 
 GROUP_ACTS = ("bind", "listen", "sendto", "connect", "close")
+# functions of llc.py on the bind / close paths (line-level yields of schedule mode "lines" are restricted to them)
+LINE_FUNCS = frozenset(("bind", "_bind_by_none", "_bind_by_addr", "_bind_by_name", "connect", "listen", "sendto", "close",
+                        "insert_socket", "remove_socket", "__init__"))
 
 
 def how_bound(label):
@@ -802,8 +904,14 @@ class Hist(object):
         address the group has bound"""
         n = len(members)
         mode = sched.get("mode", "chain")
-        if not (2 <= n <= 6) or mode not in ("chain", "held", "free"):
+        if not (2 <= n <= 6) or mode not in ("chain", "held", "free", "after", "lines"):
             return False
+        hold = None
+        if mode == "after":
+            hold = sched.get("hold") or {}
+            if not (isinstance(hold.get("i"), int) and 0 <= hold["i"] < n and hold.get("at") in ("release", "acquire")
+                    and isinstance(hold.get("k"), int) and 1 <= hold["k"] <= 4 and hold.get("until", "all") in ("all", "one")):
+                return False
         sids = [mem[0] for mem in members]
         if len(set(sids)) != n or any(not self.usable(x) or self.end[x] != end for x in sids):
             return False
@@ -851,7 +959,25 @@ class Hist(object):
         fns = [make(i) for i in range(n)]
         real = llc.lock
         gate = LockGate(real, n, order=order if mode == "chain" else None,
-                        yield_p=float(sched.get("p", 0.0)) if mode == "free" else 0.0, yseed=int(sched.get("y", 0)))
+                        yield_p=float(sched.get("p", 0.0)) if mode == "free" else 0.0, yseed=int(sched.get("y", 0)),
+                        hold=hold)
+        mon = None
+        if mode == "lines":
+            # statistical complement to the forced schedules: yields at statement starts of the bind / close paths of
+            # llc.py in the member threads (between any two statements, inside or outside the critical sections)
+            from vf.core import watch
+            lrng = random.Random(int(sched.get("y", 0)) ^ 0x5A5A)
+            lp_ = float(sched.get("p", 0.0)) or 0.3
+            mon = watch.LineMonitor(fragments=("/nfc/llcp/llc.py",))
+            lstat = [0, 0]
+
+            def line_hook(code, line, t):
+                if t in gate.idx and code.co_name in LINE_FUNCS:
+                    lstat[0] += 1
+                    if lrng.random() < lp_:
+                        lstat[1] += 1
+                        time.sleep(0 if lrng.random() < 0.6 else 0.0002)
+            mon.hook = line_hook
         res = [None] * n
         go = threading.Event()
         done = threading.Event()
@@ -875,6 +1001,11 @@ class Hist(object):
         llc.lock = gate
         turns = 0
         try:
+            if mon is not None:
+                try:
+                    mon.start()
+                except RuntimeError:
+                    mon = None
             for th in threads:
                 th.start()
             registered = gate.wait_registered(GROUP_GUARD)
@@ -897,6 +1028,8 @@ class Hist(object):
             finished = done.wait(0 if turns < TURN_LIMIT else WALL_GUARD)
         finally:
             llc.lock = real
+            if mon is not None:
+                mon.stop()
         self.R.count("link_turns", 2 * turns)
         self.R.count("helper_threads", n)
         self.R.count("cgroup_link_turns_beside_members", turns)
@@ -915,6 +1048,10 @@ class Hist(object):
             self.R.count("cgroup_gate_guard_expired", gate.guard_hit)
         if gate.yields:
             self.R.count("cgroup_yields_injected", gate.yields)
+        if mode == "lines" and mon is not None:
+            self.R.count("cgroup_line_events_in_bind_paths", lstat[0])
+            self.R.count("cgroup_line_yields_injected", lstat[1])
+            self.R.count("cgroup_line_thread_switches", mon.switches)
         pairs = gate.overlapping_pairs()
         self.R.count("cgroup_overlapping_pairs", len(pairs))
         lock_order = "".join(str(i) for i in gate.entered)
@@ -946,6 +1083,42 @@ class Hist(object):
                             % (labels[i], out[1], n - 1))
         outcomes = [("ok", after[i]) if out[0] == "ok" else ("err", out[1]) if out[0] == "err" else ("exc", None)
                     for i, out in enumerate(outs)]
+        # -- directed hold: what the parked member's window contained
+        hold_txt = ""
+        if hold is not None:
+            hi, hk, hat = hold["i"], hold["k"], hold["at"]
+            hold_txt = ", member %d (%s) parked after its %d. %s of llc.lock" % (hi, labels[hi], hk, hat)
+            is_bind = lambda l: l.startswith("bind-") or l.startswith("implicit-")      # noqa
+            if not gate.hold_reached:
+                self.R.count("cgroup_hold_point_not_reached")
+                self.R.count("cgroup_hold_point_not_reached_%s_k%d" % (hat, hk))
+            elif hat == "release" and gate.hold_depth0:
+                self.R.count("cgroup_held_after_release")
+                self.R.count("cgroup_held_after_release_k%d" % hk)
+                self.R.count("cgroup_held_after_release_until_" + hold.get("until", "all"))
+                self.R.seen("cgroup_hold_points", "%s/release/k%d" % (labels[hi], hk))
+                inside = [j for j in gate.done_in_hold]
+                self.R.count("cgroup_release_window_members_completed", len(inside))
+                okb = [labels[j] for j in inside if outs[j][0] == "ok" and is_bind(labels[j])]
+                if okb:
+                    self.R.count("cgroup_release_window_bind_completed")
+                    if is_bind(labels[hi]):
+                        self.R.count("cgroup_release_window_bind_beside_parked_bind")
+                    if how_bound(labels[hi]) == "anonymous" and any(how_bound(l) == "anonymous" for l in okb):
+                        self.R.count("cgroup_release_window_anonymous_pair")
+                    if labels[hi] == "close":
+                        self.R.count("cgroup_release_window_bind_beside_parked_close")
+                hold_txt += " while %d other members ran their calls" % len(inside)
+            elif hat == "release":
+                self.R.count("cgroup_hold_skipped_lock_still_owned")
+            else:
+                self.R.count("cgroup_held_after_acquire")
+                self.R.count("cgroup_held_after_acquire_k%d" % hk)
+                self.R.seen("cgroup_hold_points", "%s/acquire/k%d" % (labels[hi], hk))
+                self.R.count("cgroup_acquire_window_members_waiting", len(gate.waiting_in_hold))
+                if gate.waiting_in_hold:
+                    self.R.count("cgroup_acquire_window_others_at_lock")
+                hold_txt += " while %d other members waited at the lock" % len(gate.waiting_in_hold)
         involved_addr = set(a for a in before + after if a is not None)
         involved_addr |= set(arg for _, act, arg in members if act == "bind" and isinstance(arg, int) and 0 <= arg < 64)
         involved_name = set(arg_name(arg) for _, act, arg in members if act == "bind" and arg_name(arg) is not None)
@@ -984,10 +1157,11 @@ class Hist(object):
                                    % (n, ", ".join(labels), [("ok", o[1]) if o[0] == "ok" else errno.errorcode.get(o[1], o[1])
                                                               for o in outcomes], labels[i], members[i][2], tail, exp)))
         for sig, what in complaints:
-            self.report(sig, "%s [end %s, schedule %s, lock order %s]" % (what, end, mode, lock_order))
+            self.report(sig, "%s [end %s, schedule %s%s, lock order %s]" % (what, end, mode, hold_txt, lock_order))
         if complaints:
-            # witness: the schedule that was observed, as a forced admission order (replays deterministically)
-            if mode != "chain":
+            # witness: the schedule that was observed, as a forced admission order (replays deterministically);
+            # a directed hold is its own witness
+            if mode not in ("chain", "after"):
                 sched["was"] = mode
                 sched["mode"] = "chain"
                 sched["order"] = list(gate.entered) + [i for i in range(n) if i not in gate.entered]
@@ -2344,8 +2518,20 @@ class Gen(object):
             pre += [["socket", pe, probe, "ldl"], ["bind", probe, None]]
         order = list(range(len(members)))
         rng.shuffle(order)
-        sched = {"mode": rng.choice(["chain", "chain", "chain", "held", "held", "free"]), "order": order,
-                 "p": rng.choice([0.0, 0.3, 0.7]), "y": rng.randrange(1 << 30)}
+        sched = {"mode": rng.choice(["chain", "chain", "chain", "held", "held", "free", "after", "after", "after", "lines"]),
+                 "order": order, "p": rng.choice([0.0, 0.3, 0.7]), "y": rng.randrange(1 << 30)}
+        if sched["mode"] == "after":
+            # one member is parked after its k-th release of llc.lock (k = 1..3: every place where a bind / close path
+            # can have left the lock) while the others run their calls, or inside its k-th critical section while
+            # the others come to the lock; mostly a member that binds anonymously, close (two sections) now and then
+            anon = [i for i, mem in enumerate(members) if mem[1] != "close" and (mem[1] != "bind" or mem[2] is None)]
+            closers = [i for i, mem in enumerate(members) if mem[1] == "close"]
+            q = rng.random()
+            pool = closers if closers and q < 0.4 else anon if anon and q < 0.8 else list(range(len(members)))
+            at = "release" if rng.random() < 0.75 else "acquire"
+            ks = [1, 2, 2] if pool is closers else [1, 1, 1, 1, 1, 1, 2, 2, 3]     # close() has two critical sections
+            sched["hold"] = {"i": rng.choice(pool), "at": at, "k": rng.choice(ks),
+                             "until": "all" if rng.random() < 0.7 else "one"}
         self.queue += pre + [["cgroup", end, members, sched, probe]]
         return self.queue.pop(0)
 
